@@ -42,20 +42,25 @@ impl biodivine_lib_bdd::Bdd { #[verifier::external_body] pub fn to_string(&self)
 // ---- hybrid back-end: composition of the biodivine grounded contract (unit bio) with the bridge contract (C09).
 // hybrid_step() == adf::Adf::from_biodivine_vector(var_container, &self.grounded_internal(self.ac())) (shape obligation in
 // unit bio): bio_r is the biodivine grounded vector of an ADF with conditions fs, handles are the imported conditions
-pub proof fn lemma_hybrid_step(nodes: Seq<BddNode>, fs: Seq<BF>, handles: Seq<Term>, r: Seq<Term>)
+pub proof fn lemma_hybrid_step(nodes: Seq<BddNode>, fs: Seq<BF>, handles: Seq<Term>, r: Seq<Term>, rank: Seq<nat>)
     requires
         r.len() == fs.len(), handles.len() == fs.len(), r.len() < usize::MAX,
-        is_lfp(fs, tvs(r)),
+        is_lfp(fs, tvs(r)), derivable(fs, r, rank),
         // bio grounded_internal post-1 composed with the bridge post: every imported handle denotes the condition restricted by r
         forall|i: int| 0 <= i < fs.len() ==> den(nodes, (#[trigger] handles[i]).0 as int) == cof(fs[i], r, r.len() as int),
     ensures
-        // the native procedures run on the imported ADF see the same least fixpoint and the same fixpoints (complete models)
+        // the native procedures run on the imported ADF see the same least fixpoint, the same fixpoints (complete models)
+        // and the same stable models
         is_lfp(dens(nodes, handles), tvs(r)),
         forall|w: Seq<Option<bool>>| #[trigger] is_fix(dens(nodes, handles), w) == is_fix(fs, w),
+        forall|v: Seq<Term>| v.len() == fs.len() && (forall|j: int| 0 <= j < v.len() ==> decided(#[trigger] v[j])) ==> #[trigger] is_stable(dens(nodes, handles), v) == is_stable(fs, v),
 {
     assert(dens(nodes, handles) =~= pre_grounded(fs, tvs(r))) by {
         assert forall|i: int| 0 <= i < fs.len() implies dens(nodes, handles)[i] == pre_grounded(fs, tvs(r))[i] by { lemma_cof_cofv(fs[i], r); }
     }
     lemma_hybrid_lfp(fs, tvs(r));
     assert forall|w: Seq<Option<bool>>| #[trigger] is_fix(dens(nodes, handles), w) == is_fix(fs, w) by { lemma_hybrid_fix(fs, tvs(r), w); }
+    assert forall|v: Seq<Term>| v.len() == fs.len() && (forall|j: int| 0 <= j < v.len() ==> decided(#[trigger] v[j])) implies #[trigger] is_stable(dens(nodes, handles), v) == is_stable(fs, v) by {
+        lemma_hybrid_stable(fs, r, rank, v);
+    }
 }
